@@ -220,6 +220,16 @@ func (e *Enc) havocAssigns(fr *Frame, con *FuncContract, env *evalEnv, st *State
 		return
 	}
 	for _, cl := range con.assigns {
+		if cl.kind == "assigns-any" {
+			r, err := e.anyReg(env, cl.text)
+			if err != nil {
+				e.contractError(fr, "assigns", err)
+				e.havocAll(st, why)
+				return
+			}
+			e.setReg(st, r, tb.Fresh("hv_any_"+why, r.sort))
+			continue
+		}
 		sv, err := env.evalAny(cl.expr)
 		if err != nil {
 			e.contractError(fr, "assigns", err)
@@ -251,7 +261,48 @@ func (e *Enc) havocAssigns(fr *Frame, con *FuncContract, env *evalEnv, st *State
 }
 
 // assignRegs adds the registers an assigns location can touch (static approximation for loop havoc).
+// anyReg resolves `T.f` / `[]T` to a heap register.
+func (e *Enc) anyReg(env *evalEnv, text string) (r *regInfo, err error) {
+	defer func() {
+		if rec := recover(); rec != nil {
+			if ee, ok := rec.(evalError); ok {
+				err = ee
+				return
+			}
+			panic(rec)
+		}
+	}()
+	if strings.HasPrefix(text, "[]") {
+		return e.elemReg(env.typeFromText(text[2:])), nil
+	}
+	i := strings.LastIndex(text, ".")
+	if i < 0 {
+		return nil, fmt.Errorf("`any %s`: expected T.f or []T", text)
+	}
+	t := env.typeFromText(text[:i])
+	u, ok := t.Underlying().(*types.Struct)
+	if !ok {
+		return nil, fmt.Errorf("`any %s`: %s is not a struct type", text, text[:i])
+	}
+	s := e.structSortOf(t, u)
+	for k := 0; k < u.NumFields(); k++ {
+		if u.Field(k).Name() == text[i+1:] {
+			return e.fieldReg(s, u, k), nil
+		}
+	}
+	return nil, fmt.Errorf("`any %s`: no such field", text)
+}
+
 func (e *Enc) assignRegs(callee *ssa.Function, cl clause, ws *writeSet) bool {
+	if cl.kind == "assigns-any" {
+		env := &evalEnv{e: e, vars: map[string]SV{}, bound: map[string]SV{}, pkg: e.L.typesPkg(funcPkgPath(callee))}
+		r, err := e.anyReg(env, cl.text)
+		if err != nil {
+			return false
+		}
+		ws.regs[r.name] = true
+		return true
+	}
 	// evaluate the location with symbolic placeholder arguments just to learn its register
 	st := State{reach: e.tb.True(), heap: map[string]*Term{}}
 	var args []Val
